@@ -57,6 +57,8 @@ func NormalizeCode(c Code) Code {
 	code = strings.TrimSpace(code)
 	code = codeSeparatorRegexp.ReplaceAllString(code, "$1")
 	code = codeInvalidCharsRegexp.ReplaceAllString(code, "")
+	// removing invalid characters may leave whitespace at the ends again
+	code = strings.TrimSpace(code)
 	return Code(code)
 }
 
